@@ -15,7 +15,7 @@ for m in sorted(os.listdir(out)):
     print(m, 'CONFIRMED' if ok else 'REJECTED', line)
     if not ok: continue
     dst = f'/verif/seeded/{prefix}-{m}'
-    if os.path.exists(dst): dst = f'/verif/seeded/{prefix}-r5{m}'
+    if os.path.exists(dst) or os.environ.get('ROUND'): dst = f'/verif/seeded/{prefix}-' + os.environ.get('ROUND','r5') + m
     os.makedirs(dst, exist_ok=True)
     for f in ('patch.diff', 'demo_test.go', 'note.txt'):
         shutil.copy(os.path.join(d, f), dst)
